@@ -298,11 +298,11 @@ func (check typecheck) binaryExpr(n *node) error {
 		if k != k0 || k != k1 {
 			return n.cfgErrorf("cannot use type %s as type %s in assignment", c0.typ.id(), n.typ.id())
 		}
-	case aRem:
+	case aRem, aRemAssign:
 		if zeroConst(c1) {
 			return n.cfgErrorf("invalid operation: division by zero")
 		}
-	case aQuo:
+	case aQuo, aQuoAssign:
 		// Division by a constant zero is an error for integers and for constant
 		// operands only: x / 0.0 with a floating-point variable x is +-Inf or NaN.
 		if zeroConst(c1) && (c0.rval.IsValid() || isInt(c0.typ.TypeOf())) {
@@ -339,8 +339,17 @@ func (check typecheck) binaryExpr(n *node) error {
 	return check.op(binaryOpPredicates, a, n, c0, t0)
 }
 
+// zeroConst returns true if n is a numeric constant, typed or not, of value zero.
 func zeroConst(n *node) bool {
-	return n.typ.untyped && constant.Sign(n.rval.Interface().(constant.Value)) == 0
+	c := constOperand(n)
+	if c == nil {
+		return false
+	}
+	switch c.Kind() {
+	case constant.Int, constant.Float, constant.Complex:
+		return constant.Sign(c) == 0
+	}
+	return false
 }
 
 func (check typecheck) index(n *node, max int) error {
